@@ -448,3 +448,28 @@ def run(ctx):
         m = fcu_meta[i]
         ctx.mismatch(f"CUSUM().evaluate({m['cut']}) = {m['impl_value']!r} is not what the kernel's documented operation order (sequential prefix sums, weights sqrt(na / (n nb)) and "
                      f"sqrt(nb / (n na)) with integer products, |bw before - aw after|) gives on binary64", m, {"what": "float-operation-order", "kernel": "cusum"})
+    # ---- MANY columns with a common non-unit scale: the determinant itself leaves the binary64 range long before its logarithm does ----
+    from skchange.costs import GaussianCovCost as _GCC
+    from skchange.change_scores import ChangeScore as _CS
+    from skchange.anomaly_scores import Saving as _SV
+    rng_w = np.random.default_rng(ctx.seed + 4545)
+    for scale_w in (1.0, 1e4, 1e-4):
+        pw, nw = 45, 220
+        Xw = rng_w.normal(size=(nw, pw)) * scale_w
+        Xw[nw // 2:] += 2.0 * scale_w
+        for name_w, mk_w, cuts_w, ref_w in [
+                ("GaussianCovCost()", lambda: _GCC(), [[0, nw], [10, 150]], lambda c: direct.cost_direct("gcov", None, Xw, *c)),
+                ("ChangeScore(GaussianCovCost())", lambda: _CS(_GCC()), [[0, nw // 2, nw], [5, 100, 200]], lambda c: direct.change_direct("gcov", Xw, *c)),
+                ("Saving(GaussianCovCost((0, scale^2)))", lambda: _SV(_GCC((0.0, scale_w ** 2))), [[0, nw], [20, 140]], lambda c: direct.saving_direct("gcov", (0.0, scale_w ** 2), Xw, *c))]:
+            ctx.case({"widep": name_w, "scale": scale_w}, nontrivial=True)
+            try:
+                got_w = mk_w().fit(Xw).evaluate(np.asarray(cuts_w))
+            except Exception as ex:
+                ctx.violation(f"{name_w} on {nw} x {pw} well-conditioned data of scale {scale_w:g} raised {type(ex).__name__}: {str(ex)[:100]}",
+                              {"n": nw, "p": pw, "scale": scale_w, "data_seed": ctx.seed + 4545}, {"what": "wide-p-exception", "scorer": name_w.split("(")[0]})
+                continue
+            for c_w, g_w in zip(cuts_w, got_w):
+                w_w = np.asarray(ref_w(c_w), dtype=float)
+                if not (np.all(np.isfinite(g_w)) and direct.close(g_w, w_w, scale=abs(float(w_w[0])) + nw * pw)):
+                    ctx.violation(f"{name_w} on {nw} x {pw} data of scale {scale_w:g}: {c_w} -> {np.asarray(g_w).tolist()}, the definition (log-determinant via slogdet) gives {w_w.tolist()}",
+                                  {"n": nw, "p": pw, "scale": scale_w, "cut": c_w, "data_seed": ctx.seed + 4545}, {"what": "wide-p-value", "scorer": name_w.split("(")[0]})
